@@ -249,6 +249,7 @@ def check(db, rep):
                     else:
                         r5.violation(inst, f.loc(c), 'operands passed as %s (stack offsets), expected ($1,$2,$3) = offsets [2,1,0]: operands swapped or duplicated' % idx)
     rep.note('binary_productions', n_bin)
+    _ranges_support(db, rep)
 
 
 def _deepen(s, depth):
@@ -396,3 +397,111 @@ def _sync(db, rep, r1, lr):
     finally:
         import shutil
         shutil.rmtree(tmp, ignore_errors=True)
+
+
+def _ranges_support(db, rep):
+    """r7: node ranges of a later input do not depend on an earlier one (lexer reset, shared with C18); r8: FindMinimalNode returns the innermost node
+    whose range contains the requested range, evaluated on small trees including wrappers that share the range of their only child."""
+    import itertools
+    from engine.evalmini import Interp, Obj, OutOfFragment, NOT_HANDLED
+    from engine.modset import ModSets
+    from rules import C18
+    r7 = rep.rule('r7', 'LEXER-RESET (shared with C18): every lexer entry point rebinds the input and re-initialises the position state lex() modifies, so token ranges do not depend on earlier inputs', 4)
+    C18.lexer_reset_rule(db, r7, r7, ModSets(db))
+    r8 = rep.rule('r8', 'INNERMOST: FindMinimalNode(root, range) is the deepest node whose range contains the range (none if the root does not contain it)', 1)
+    f = db.fn('ccl::rslang::FindMinimalNode', required=False)
+    if f is None:
+        r8.broken('anchor vanished: FindMinimalNode')
+        return
+    # trees as (start, finish, [children]); the second has a wrapper sharing the range of its only child (function definition with one argument)
+    T1 = (0, 6, [(0, 2, []), (3, 6, [(3, 4, []), (5, 6, [])])])
+    T2 = (0, 6, [(0, 3, [(0, 3, [(0, 1, []), (2, 3, [])])]), (4, 6, [])])
+    T3 = (0, 4, [])
+
+    def node_at(tree, path):
+        n = tree
+        for i in path:
+            n = n[2][i]
+        return n
+
+    def reference(tree, rng):
+        def contains(n):
+            return n[0] <= rng[0] and rng[1] <= n[1] if rng[0] != rng[1] else n[0] <= rng[1] < n[1]
+        if not contains(tree):
+            return None
+        path = []
+        while True:
+            n = node_at(tree, path)
+            nxt = [i for i, c in enumerate(n[2]) if contains(c)]
+            if not nxt:
+                return tuple(path)
+            path.append(nxt[0])
+    bad, cases = None, 0
+    contains_fn = db.fn('ccl::StrRange::Contains', required=False, pick=lambda x: 'StrRange' in x.rec['params'][0]['type']) if hasattr(db, 'fn') else None
+    try:
+        for tree in (T1, T2, T3):
+            for a in range(0, 7):
+                for b in range(a, 7):
+                    cases += 1
+
+                    def on_call(it, fn, n, env, tree=tree):
+                        cs = n.get('cs') or ''
+                        last = cs.split('::')[-1]
+                        S = fn.stmts
+                        if cs == 'std::empty' and n.get('args'):
+                            v = it.eval(fn, S[n['args'][0]], env)
+                            if isinstance(v, Obj) and 'start' in v:
+                                return it.call(db.fn('ccl::StrRange::empty'), [], v)
+                        if cs == 'ccl::rslang::FindMinimalNode':
+                            cur = it.eval(fn, S[n['args'][0]], env)
+                            rng = it.eval(fn, S[n['args'][1]], env)
+                            return it.call(f, [Obj(__kind__='cursor', path=list(cur['path'])), rng])     # the cursor is passed by value
+                        if 'Cursor' in cs and 'obj' in n:
+                            cur = it.eval(fn, S[n['obj']], env)
+                            node = node_at(tree, cur['path'])
+                            if last == 'ChildrenCount':
+                                return len(node[2])
+                            if last == 'MoveToChild':
+                                k = it.eval(fn, S[n['args'][0]], env)
+                                if not (0 <= k < len(node[2])):
+                                    raise OutOfFragment('MoveToChild(%s) of a node with %d children' % (k, len(node[2])))
+                                cur['path'].append(k)
+                                return None
+                            if last == 'MoveToNextSibling':
+                                if not cur['path']:
+                                    return False
+                                parent = node_at(tree, cur['path'][:-1])
+                                if cur['path'][-1] + 1 < len(parent[2]):
+                                    cur['path'][-1] += 1
+                                    return True
+                                return False
+                            if last == 'MoveToParent':
+                                if cur['path']:
+                                    cur['path'].pop()
+                                    return True
+                                return False
+                        if n['k'] == 'CXXOperatorCallExpr' and n.get('op') == '->' and 'Cursor' in S[n['args'][0]].get('t', ''):
+                            cur = it.eval(fn, S[n['args'][0]], env)
+                            node = node_at(tree, cur['path'])
+                            return ('ptr', Obj(pos=Obj(start=node[0], finish=node[1])))
+                        if n['k'] in ('CXXConstructExpr', 'CXXTemporaryObjectExpr') and n.get('args') and 'Cursor' in (n.get('cls') or n.get('t', '')):
+                            v = it.eval(fn, S[n['args'][0]], env)
+                            if isinstance(v, Obj) and v.get('__kind__') == 'cursor':
+                                return Obj(__kind__='cursor', path=list(v['path']))
+                        return NOT_HANDLED
+                    got = Interp(db, on_call=on_call, max_steps=50000).call(f, [Obj(__kind__='cursor', path=[]), Obj(start=a, finish=b)])
+                    gotp = tuple(got['path']) if isinstance(got, Obj) and 'path' in got else None
+                    want = reference(tree, (a, b))
+                    if gotp != want and bad is None:
+                        def show(p):
+                            return 'none' if p is None else 'node %s [%d,%d)' % (list(p), node_at(tree, p)[0], node_at(tree, p)[1])
+                        bad = 'tree %s, range [%d,%d): returns %s, the innermost node is %s' % (tree, a, b, show(gotp), show(want))
+    except OutOfFragment as e:
+        if str(e).startswith(('call to', 'expression kind', 'statement kind', 'unbound', 'field')):
+            r8.broken('FindMinimalNode outside the evaluable fragment: %s' % e)
+            return
+        bad = str(e)
+    if bad:
+        r8.violation('FindMinimalNode', '%s:%d' % (f.file, f.line), bad)
+    else:
+        r8.ok('FindMinimalNode', 'innermost containing node on %d (tree, range) cases, including a wrapper that shares the range of its only child' % cases, '%s:%d' % (f.file, f.line))
